@@ -283,16 +283,21 @@ func init() {
 	}
 	// "every supported signing key": RSA moduli of other sizes, also with a bit length that is not a multiple of 8
 	Scenarios["c03.rsa-key-sizes"] = func() (choice.Scenario, func() any) {
-		files := []string{"rsa2049-1", "rsa2052-1", "rsa3072-1"}
-		keys := map[string]*fixtures.Key{}
+		type kf struct{ alg, file string }
+		var kfs []kf
 		for _, alg := range []string{"PS256", "PS384", "PS512"} {
-			for _, f := range files {
-				keys[alg+f] = fixtures.GetFile(alg, f)
+			for _, f := range []string{"rsa2049-1", "rsa2052-1", "rsa3072-1"} {
+				kfs = append(kfs, kf{alg, f})
 			}
 		}
+		// ECDSA keys with a public coordinate that has a leading zero octet (its minimal big-endian form is shorter)
+		kfs = append(kfs, kf{"ES256", "p256-shortcoord-1"}, kf{"ES384", "p384-shortcoord-1"}, kf{"ES512", "p521-shortcoord-1"})
+		keys := make([]*fixtures.Key, len(kfs))
+		for i, x := range kfs {
+			keys[i] = fixtures.GetFile(x.alg, x.file)
+		}
 		return func(c *choice.Ctx) {
-			algName := []string{"PS256", "PS384", "PS512"}[c.Choose("alg", 3)]
-			f := files[c.Choose("modulus", len(files))]
+			i := c.Choose("key", len(kfs))
 			kind := c.Choose("profile", 2)
 			validating := c.Choose("entry", 2) == 0
 			a := genValidOpt(&choice.Ctx{}, kind, false, true)
@@ -300,8 +305,103 @@ func init() {
 			if err != nil {
 				return
 			}
-			c03stats.StateStr(fmt.Sprint("rsa", algName, f, kind, validating))
-			c03Eval(c, c03stats, a, x, kind, algName, keys[algName+f], validating, 0)
+			c03stats.StateStr(fmt.Sprint("keyshape", kfs[i], kind, validating))
+			c03Eval(c, c03stats, a, x, kind, kfs[i].alg, keys[i], validating, 0)
+		}, nil
+	}
+	// derived profiles with identifiers of other lengths / with a Validate() that fills in a default: the token carries
+	// the validated encoding, the decoded claims and the Evidence's helper getters return what was signed
+	Scenarios["c03.derived-profiles"] = func() (choice.Scenario, func() any) {
+		k := fixtures.Get("ES256", 1)
+		return func(c *choice.Ctx) {
+			for _, p := range []psatoken.IProfile{ExtLaxIDProfile{}, ExtDefaultingProfile{}} {
+				if _, _, ok := psatoken.VerifRegistryEntry(p.GetName()); !ok {
+					if err := psatoken.RegisterProfile(p); err != nil {
+						panic(choice.HarnessError{Msg: err.Error()})
+					}
+				}
+			}
+			which := c.Choose("profile", 2)
+			name := []string{ExtLaxIDName, ExtDefaultingName}[which]
+			attach := c.Choose("attached-by", 2) // 0: field assignment (nothing validated yet), 1: SetClaims
+			validating := c.Choose("entry", 2) == 0
+			x, err := psatoken.NewClaims(name)
+			if err != nil {
+				c.Failf("C03:derived-profiles:newclaims", "%v", err)
+				return
+			}
+			inst, impl := instID(33, 1), pat(32, 0x10)
+			if which == 0 {
+				inst, impl = instID(17, 1), pat(16, 0x10)
+			}
+			for _, e := range []error{x.SetClientID(-3), x.SetSecurityLifeCycle(0x3001), x.SetImplID(impl), x.SetInstID(inst), x.SetNonce(pat(48, 0x50)),
+				x.SetSoftwareComponents([]psatoken.ISwComponent{realComp(fullComp(1, 32))})} {
+				if e != nil {
+					c.Failf("C03:derived-profiles:build", "%v", e)
+					return
+				}
+			}
+			tag := fmt.Sprintf("derived-%d:attach-%d:validating=%v", which, attach, validating)
+			c03stats.StateStr(tag)
+			ev := &psatoken.Evidence{}
+			if attach == 1 {
+				if err := ev.SetClaims(x); err != nil {
+					c.Failf("C03:setclaims:"+tag, "%v", err)
+					return
+				}
+			} else {
+				ev.Claims = x
+			}
+			var tok []byte
+			if validating {
+				tok, err = ev.ValidateAndSign(k.Signer())
+			} else {
+				tok, err = ev.Sign(k.Signer())
+			}
+			c03stats.Trans.Add(3)
+			if err != nil {
+				c.Failf("C03:sign-error:"+tag, "%v", err)
+				return
+			}
+			v, perr := viewSign1(tok)
+			if perr != nil {
+				c.Failf("C03:not-cbor:"+tag, "%v", perr)
+				return
+			}
+			if validating {
+				if want, werr := psatoken.ValidateAndEncodeClaimsToCBOR(x); werr != nil || !bytes.Equal(want, v.payload) {
+					c.Failf("C03:payload-differs:"+tag, "signed payload is not the validated CBOR encoding of the claims (%v)\n payload  %x\n encoding %x", werr, v.payload, want)
+				}
+			}
+			ev2, derr := psatoken.DecodeAndValidateEvidenceFromCOSE(tok)
+			if derr != nil {
+				if validating {
+					c.Failf("C03:decode-error:"+tag, "%v", derr)
+				}
+				return
+			}
+			if g1, g2 := getterVector(x), getterVector(ev2.Claims); g1 != g2 && validating {
+				c.Failf("C03:claims-differ:"+tag, "orig    %s\ndecoded %s", g1, g2)
+			}
+			if ev2.Verify(k.Pub) != nil {
+				c.Failf("C03:verify-decoded:"+tag, "does not verify")
+			}
+			// the helper getters of the Evidence hand out what the claims' own getters return
+			for _, e := range []*psatoken.Evidence{ev, ev2} {
+				wi, _ := e.Claims.GetInstID()
+				wm, _ := e.Claims.GetImplID()
+				var gi, gm *[]byte
+				if p, pv := safely(func() { gi, gm = e.GetInstanceID(), e.GetImplementationID() }); p {
+					c.Failf("C03:evidence-helper-panics:"+tag, "%v", pv)
+					continue
+				}
+				if gi == nil || !bytes.Equal(*gi, wi) {
+					c.Failf("C03:evidence-helper:GetInstanceID:"+tag, "got %v, the claims' getter returns %x", gi, wi)
+				}
+				if gm == nil || !bytes.Equal(*gm, wm) {
+					c.Failf("C03:evidence-helper:GetImplementationID:"+tag, "got %v, the claims' getter returns %x", gm, wm)
+				}
+			}
 		}, nil
 	}
 	// long component lists through sign -> decode -> verify (what the encoder emits the decoder must take back)
@@ -327,6 +427,7 @@ func init() {
 	Checks["C03"] = func(r *evid.Run) {
 		registerStandardExt()
 		c03stats = NewStats()
+		pollute(11) // earlier in this process: claims-sets from the stock factories were renamed / overwritten through their pointers
 		dl := deadline(r, 50*time.Second, 15*time.Minute)
 		b := 3
 		if thorough(r) {
@@ -335,6 +436,7 @@ func init() {
 		exploreChoiceOpts(r, "c03.two-evidences", 2, dl, 1)
 		exploreChoice(r, "c03.many-components", -1, dl)
 		exploreChoice(r, "c03.rsa-key-sizes", -1, dl)
+		exploreChoiceOpts(r, "c03.derived-profiles", -1, dl, 1)
 		encStats = c03stats // the scenario is shared with C09/C12 and counts there
 		exploreChoiceOpts(r, "c03.same-name-claim-types", 1, dl, 1)
 		for kind := 0; kind < 3; kind++ {
